@@ -2839,6 +2839,15 @@ func levelLoopVisitsEveryLevel(c *core.Ctx, R string) {
 						walk(s.Body, true)
 						return false
 					case *ast.ReturnStmt:
+						// giving up with an error ends the whole call, not one level
+						if n := len(s.Results); n > 0 {
+							last := ast.Unparen(s.Results[n-1])
+							if t := info.TypeOf(last); t != nil && types.Identical(t, types.Universe.Lookup("error").Type()) {
+								if id, isId := last.(*ast.Ident); !isId || id.Name != "nil" {
+									break
+								}
+							}
+						}
 						bad += "return at " + c.P.Pos(s.Pos()) + "; "
 					case *ast.BranchStmt:
 						switch s.Tok {
@@ -2895,5 +2904,173 @@ func levelLoopVisitsEveryLevel(c *core.Ctx, R string) {
 	}
 	if n < 3 {
 		c.Bad(R, "level-loop-visits-every-level/floor", root.Decl.Pos(), fmt.Sprintf("only %d loops over levels found on the snapping call graph (floor 3)", n))
+	}
+}
+
+func init() {
+	reg("R27", r27FeatureAccessorsReadOnly)
+}
+
+// r27FeatureAccessorsReadOnly: one source feature is wrapped once per tile matrix and the wrappers are consumed by
+// the target goroutines concurrently, so the accessors of every module type that implements processing.Feature
+// (Columns, Geometry) only read: no store through the receiver, directly or in a module function it is handed to,
+// and no store into an element of a slice or map the receiver holds.  A lazily filled cache in an accessor is an
+// unsynchronised write shared by all writers.
+func r27FeatureAccessorsReadOnly(c *core.Ctx) {
+	const R = "R27"
+	n := 0
+	for _, m := range []string{"Columns", "Geometry"} {
+		for _, f := range moduleImpls(c, "processing", "Feature", m) {
+			if f.SSA == nil || len(f.SSA.Params) == 0 {
+				continue
+			}
+			n++
+			recv := f.SSA.Params[0]
+			bad := ""
+			if writesThrough(recv, 2, map[ssa.Value]bool{}) {
+				bad = "stores through its receiver"
+			}
+			// a value receiver is spilled to a local: stores into what its slice/map members point at
+			for _, b := range f.SSA.Blocks {
+				for _, in := range b.Instrs {
+					var target ssa.Value
+					switch x := in.(type) {
+					case *ssa.Store:
+						if ia, ok := x.Addr.(*ssa.IndexAddr); ok {
+							target = ia.X
+						}
+					case *ssa.MapUpdate:
+						target = x.Map
+					}
+					if target == nil {
+						continue
+					}
+					// the container was read out of the receiver
+					for k := 0; k < 6 && target != nil; k++ {
+						switch y := target.(type) {
+						case *ssa.UnOp:
+							target = y.X
+						case *ssa.FieldAddr:
+							target = y.X
+						case *ssa.Field:
+							target = y.X
+						case *ssa.Alloc:
+							if s := onceStoredC(y); s != nil {
+								target = s
+							} else {
+								target = nil
+							}
+						default:
+							k = 6
+						}
+					}
+					if target == ssa.Value(recv) {
+						bad = "stores into a slice or map held by its receiver (" + c.P.Pos(in.Pos()) + ")"
+					}
+				}
+			}
+			c.Check(R, "feature-accessor-only-reads/"+f.Name, f.Decl.Pos(), bad == "", "no store through the receiver or into what it holds", "accessor "+f.Name+" "+bad+": the feature is shared by the target goroutines of all tile matrices, which call it without synchronisation")
+		}
+	}
+	if n < 3 {
+		c.Bad(R, "feature-accessor-only-reads/floor", token.NoPos, fmt.Sprintf("only %d accessors of processing.Feature implementations found in the module (floor 3)", n))
+	}
+}
+
+func init() {
+	reg("R37w", r37BuiltinQuadtreesPassTheGate)
+}
+
+// r37BuiltinQuadtreesPassTheGate: the tolerance of the gate's cell-size test admits every embedded document that
+// has the shape of a quadtree (square matrices of 2^id tiles, ids 0..n-1, no variable widths -- the documents the
+// tool is shipped to serve).  The window is read from the code (the constant bounds handed to FBetweenInc on the
+// gate's call graph); the ratios are computed as the gate computes them, previous cell size over this one in
+// float64.  Narrowing the window below the rounding of the published cell sizes turns built-in sets away.
+func r37BuiltinQuadtreesPassTheGate(c *core.Ctx) {
+	const R = "R37w"
+	iq := c.Anchor(R, "pointindex.IsQuadTree")
+	if iq == nil || iq.SSA == nil {
+		return
+	}
+	lo, hi, found := 0.0, 0.0, 0
+	var pos token.Pos
+	for fn := range core.Reachable(c.P.VTA(), iq.SSA) {
+		if !core.IsModPath(core.FuncPkgPath(fn)) {
+			continue
+		}
+		for _, b := range fn.Blocks {
+			for _, in := range b.Instrs {
+				call, ok := in.(*ssa.Call)
+				if !ok || core.StaticCalleeID(call) != core.ModPath+"/mathhelp.FBetweenInc" || len(call.Call.Args) != 3 {
+					continue
+				}
+				if _, isQuo := call.Call.Args[0].(*ssa.BinOp); !isQuo {
+					continue
+				}
+				kl, ok1 := call.Call.Args[1].(*ssa.Const)
+				kh, ok2 := call.Call.Args[2].(*ssa.Const)
+				if ok1 && ok2 && kl.Value != nil && kh.Value != nil {
+					lo, hi = kl.Float64(), kh.Float64()
+					pos = call.Pos()
+					found++
+				}
+			}
+		}
+	}
+	if found != 1 {
+		c.Note(R, "the gate's cell-size window is not a single FBetweenInc(ratio, const, const): built-in documents are not tested against it")
+		return
+	}
+	files, _ := filepath.Glob(filepath.Join(c.P.RepoDir, "tms20", "tilematrixsets", "*.json"))
+	checked := 0
+	for _, fn := range files {
+		name := strings.TrimSuffix(filepath.Base(fn), ".json")
+		b, err := os.ReadFile(fn)
+		if err != nil {
+			continue
+		}
+		var doc struct {
+			TileMatrices []struct {
+				ID                   string          `json:"id"`
+				CellSize             float64         `json:"cellSize"`
+				MatrixWidth          int64           `json:"matrixWidth"`
+				MatrixHeight         int64           `json:"matrixHeight"`
+				VariableMatrixWidths json.RawMessage `json:"variableMatrixWidths"`
+			} `json:"tileMatrices"`
+		}
+		if err := json.Unmarshal(b, &doc); err != nil {
+			continue // R09/R40 report documents that do not parse
+		}
+		byID := map[int64]int{}
+		structural := len(doc.TileMatrices) > 0
+		for i, m := range doc.TileMatrices {
+			id, err := strconv.ParseInt(m.ID, 10, 64)
+			if err != nil || id < 0 || id > 62 || m.MatrixWidth != m.MatrixHeight || m.MatrixWidth != int64(1)<<uint(id) || len(m.VariableMatrixWidths) > 0 {
+				structural = false
+				break
+			}
+			byID[id] = i
+		}
+		for id := int64(0); structural && id < int64(len(doc.TileMatrices)); id++ {
+			if _, ok := byID[id]; !ok {
+				structural = false
+			}
+		}
+		if !structural {
+			continue
+		}
+		checked++
+		bad := ""
+		for id := int64(1); id < int64(len(doc.TileMatrices)); id++ {
+			r := doc.TileMatrices[byID[id-1]].CellSize / doc.TileMatrices[byID[id]].CellSize
+			if !(lo <= r && r <= hi) {
+				bad += fmt.Sprintf("matrix %d: ratio %.12g; ", id, r)
+			}
+		}
+		c.Check(R, "builtin-quadtree-passes-cell-size-window/"+name, pos, bad == "", fmt.Sprintf("all cell-size ratios within [%v, %v]", lo, hi),
+			fmt.Sprintf("the gate's window [%v, %v] turns away the built-in set %s, which has the shape of a quadtree: %s", lo, hi, name, bad))
+	}
+	if checked < 5 {
+		c.Bad(R, "builtin-quadtree-passes-cell-size-window/floor", pos, fmt.Sprintf("only %d embedded documents with the shape of a quadtree found (floor 5)", checked))
 	}
 }
